@@ -169,7 +169,7 @@ def obs_term(u, undo_closed):
         kind = "UTcc"
     elif k == "at":
         kind = "(UAt %d %d None)" % (u["stmts"], u["meta_miss"])
-    elif k == "at_phase2":
+    elif k in ("at_phase2", "at_phase2_dup"):
         kind = "(UAtPhase2 true)" if o == "commit" else "undo_unit"
     elif k == "select":
         kind = "USelect"
@@ -243,7 +243,7 @@ def run(chk, replay_obj=None):
                       dict(replay_base, diverged=data.get("diverged"), child_exit=data.get("child_exit"),
                            stderr_tail=(data.get("stderr_tail") or "")[-2500:]), True)
     else:
-        units = child["units"]
+        units = child.get("units") or []
         if child.get("stuck"):
             found_dynamic = True
             chk.violation("lock-up: the client did not come back within the watchdog's bound: %s (goroutine dump in the replay)" % child["stuck"][:4],
@@ -361,7 +361,7 @@ def run(chk, replay_obj=None):
                          "on_protected_pairs": len(rc["protected_by_model"]), "unmodelled_pkg": len(rc["unmodelled"])},
         "stress": None if child is None else {k: child[k] for k in ("started", "finished", "errors", "phase2_sent", "phase2_resp", "opens",
                                                                    "session_ops", "gor_before", "gor_after", "inuse0_delta", "inuse1_delta",
-                                                                   "drv_opened", "drv_closed")},
+                                                                   "drv_opened", "drv_closed", "rpc")},
         "stress_secs": secs, "harness_wall_s": round(hsecs, 1),
     })
     chk.assumptions += ["lexical lock scopes (defer Unlock holds to function end); locks are identified by declaring type and field, "
